@@ -25,6 +25,9 @@ class C03(Check):
         for t in (3, 4, 5, 6):
             for n in (0, 1, 2, 3, 127, 128, 129, 255, 256):
                 descs.append(("tx", G.tx_desc(rng, 2, ["key"], 2, [False], t, n_proofs=n, lr=(0, 0)), "proofcount-type%d" % t))
+        for sh in G.ring0_shapes():
+            if G.shape_is_wf(sh):
+                descs.append(("tx", G.tx_desc(rng, **sh), "empty-ring"))
         for _ in range(800 if not thorough else 12000):
             sh = G.random_shape(rng, small=True)
             descs.append(("tx", G.tx_desc(rng, **sh), "random-type%d" % sh["rct_type"]))
